@@ -17,6 +17,7 @@ What is regenerated (vocabulary of leaves: coq/theories/Impl/Dispatch.v):
                                   read_rle_bit_packed_hybrid(.., NumpyIO(<buf>..), itemsize=k)   DGeneric <item size of buf's allocation> k
                                   np.zeros(..) and no decoder call                      DZeros
   read_plain_boolean_gen  encoding.read_plain_boolean: count handed to read_bitpacked1, allocation of the output, returned slice
+  index_view_signed     core._index_dtype: signed or unsigned view, from (bit width, dictionary size)
   one_run_check         core._is_one_bitpacked_run: the condition on (run header, number of values)
   v1_delta_alloc        core.read_data_page: (item size of the np.empty handed to delta_binary_unpack, its longval argument)
 Anything outside these shapes: fail closed (exit status 2, source location on stderr); the check then falls back to
@@ -325,7 +326,10 @@ def index_chains(fn):
 
 
 def is_view(s):
-    """an array view of the page bytes as integers of bit_width bits: `'int%i' % bit_width`"""
+    """an array view of the page bytes as integers of bit_width bits: `'int%i' % bit_width` or core._index_dtype(bit_width, dic)"""
+    if any(isinstance(x, ast.Call) and isinstance(x.func, ast.Name) and x.func.id == "_index_dtype" and len(x.args) == 2
+           and ast.unparse(x.args[0]) == "bit_width" for x in ast.walk(s)):
+        return True
     return any(isinstance(x, ast.BinOp) and isinstance(x.op, ast.Mod) and isinstance(x.left, ast.Constant)
                and x.left.value in ("int%i", "uint%i") and ast.unparse(x.right) == "bit_width" for x in ast.walk(s))
 
@@ -472,6 +476,53 @@ def one_run_check(fns, fname):
     return b(body[2].test)
 
 
+def index_view(fns, fname):
+    """core._index_dtype(bit_width, dic): signed = <cond over dic, len(dic), bit_width>; return ('int%i' if signed else 'uint%i') % bit_width
+    -> is the view SIGNED, as a Gallina bool over (bit_width, dic_len : option N)"""
+    fn = fns.get("_index_dtype")
+    if fn is None:
+        raise Unsupported("%s: function _index_dtype not found" % fname)
+    if [a.arg for a in fn.args.args] != ["bit_width", "dic"]:
+        fail(fn, "_index_dtype parameters changed", fname)
+    body = [s for s in fn.body if not is_doc(s)]
+    if len(body) != 2 or not isinstance(body[0], ast.Assign) or ast.unparse(body[0].targets[0]) != "signed" \
+            or ast.unparse(body[1]) != "return ('int%i' if signed else 'uint%i') % bit_width":
+        fail(fn, "_index_dtype has another shape than: signed = <cond>; return ('int%i' if signed else 'uint%i') % bit_width", fname)
+
+    def n(e):
+        if isinstance(e, ast.Constant) and isinstance(e.value, int) and e.value >= 0:
+            return str(e.value)
+        if isinstance(e, ast.Name) and e.id == "bit_width":
+            return "bit_width"
+        if ast.unparse(e) == "len(dic)":
+            return "(match dic_len with Some n => n | None => 0 end)"
+        ops = {ast.RShift: "N.shiftr", ast.LShift: "N.shiftl", ast.Mult: "N.mul", ast.Add: "N.add", ast.Sub: "N.sub", ast.Pow: "N.pow"}
+        if isinstance(e, ast.BinOp) and type(e.op) in ops:
+            return "(%s %s %s)" % (ops[type(e.op)], n(e.left), n(e.right))
+        fail(e, "unsupported arithmetic %s" % ast.unparse(e)[:50], fname)
+
+    def b(e):
+        src = ast.unparse(e)
+        if src == "dic is None":
+            return "(match dic_len with None => true | Some _ => false end)"
+        if src == "dic is not None":
+            return "(match dic_len with None => false | Some _ => true end)"
+        if isinstance(e, ast.BoolOp):
+            return "(" + (" && " if isinstance(e.op, ast.And) else " || ").join(b(v) for v in e.values) + ")"
+        if isinstance(e, ast.UnaryOp) and isinstance(e.op, ast.Not):
+            return "negb %s" % b(e.operand)
+        if isinstance(e, ast.Compare) and len(e.ops) == 1:
+            tab = {ast.Eq: "(%s =? %s)", ast.NotEq: "negb (%s =? %s)", ast.Lt: "(%s <? %s)", ast.LtE: "(%s <=? %s)"}
+            l, r, op = e.left, e.comparators[0], e.ops[0]
+            if isinstance(op, (ast.Gt, ast.GtE)):
+                l, r = r, l
+                op = ast.Lt() if isinstance(op, ast.Gt) else ast.LtE()
+            if type(op) in tab:
+                return tab[type(op)] % (n(l), n(r))
+        fail(e, "unsupported condition %s" % src[:50], fname)
+    return b(body[0].value)
+
+
 def delta_alloc(fn, fname):
     cs = calls(fn, "delta_binary_unpack")
     if len(cs) != 1:
@@ -524,6 +575,7 @@ def translate(enc_src, core_src, enc_name="encoding.py", core_name="core.py"):
     v2d = index_tree(c2[1], core_name, out_alloc)
     da = delta_alloc(fns["read_data_page"], core_name)
     orc = one_run_check(fns, core_name)
+    ivs = index_view(fns, core_name)
     out = []
     out.append("(* generated by translators/dispatch2coq.py from fastparquet/encoding.py and fastparquet/core.py - do not edit *)")
     out.append("From Coq Require Import NArith List Bool.")
@@ -538,6 +590,8 @@ def translate(enc_src, core_src, enc_name="encoding.py", core_name="core.py"):
     out.append("Definition v1_delta_alloc (type_ : N) : N * bool := %s.\n" % da)
     out.append("(* core._is_one_bitpacked_run: when does the run header at the cursor count as THE one bit-packed run holding nval values *)")
     out.append("Definition one_run_check (header nval : N) : bool := %s.\n" % orc)
+    out.append("(* core._index_dtype: is the array view of whole-byte indices SIGNED, given the width and the dictionary's size (None: no dictionary at hand) *)")
+    out.append("Definition index_view_signed (bit_width : N) (dic_len : option N) : bool := %s.\n" % ivs)
     return "\n".join(out)
 
 
